@@ -44,6 +44,8 @@ def gen_hier(rng: random.Random, ndefs=3, max_children=3, max_pins=3, leaf_p=0.5
             if usable:
                 children[0] = {"sub": usable[-1]}
         d = {"children": children, "conns": [], "expo": []}
+        if nchild >= 2 and rng.random() < 0.2:
+            d["mon"] = [rng.randrange(nchild)]       # one child is declared a monitor (the matrix must not notice)
         desc["defs"].append(d)
         ports = [(c, p) for c, ch in enumerate(children) for p in range(nports(desc, ch))]
         rng.shuffle(ports)
@@ -164,6 +166,9 @@ def build_all(desc):
                     lk.Pin(name).put(sts[c].pin[port_name(desc, d["children"][c], port)])
             if auto:
                 lk.raise_pins()
+            for ci in d.get("mon", []):
+                if ci < len(sts) and nports(desc, d["children"][ci]) > 0:
+                    S.monitor_structure(sts[ci], name=f"M{k}_{ci}")
         built[k] = (S, sts)
     return built
 
